@@ -35,16 +35,16 @@ Definition pp_cfg : cfg := mkCfg [0;85;85;85;85;85] [0;102;102;102;102;102] [192
 
 Fixpoint pp_run (toks : list string) (acc : list string) (woken : bool) : option string :=
   match toks with
-  | [] => Some (join " " (rev ((if woken then "ping:ok" else "ping:timeout") :: acc)))
+  | [] => Some (join " | " (rev ((if woken then "ping:ok" else "ping:timeout") :: acc)))
   | t :: r =>
       match pp_tok t with
       | None => None
       | Some (m, b) =>
+          (* the FULL observation: Parse is a function of (configuration, bytes); the waiter table is not an input *)
+          let o := show_parse_full pp_cfg (of_bytes b) in
           match parse pp_cfg (of_bytes b) with
-          | Ok f => pp_run r ("ok" :: acc) (woken || (m && match f_echo f with Some _ => true | None => false end))
-          | Err e => pp_run r (show_errclass e :: acc) woken
-          | Panic => pp_run r ("panic" :: acc) woken
-          | Fuel => pp_run r ("fuel" :: acc) woken
+          | Ok f => pp_run r (o :: acc) (woken || (m && match f_echo f with Some _ => true | None => false end))
+          | _ => pp_run r (o :: acc) woken
           end
       end
   end.
@@ -54,13 +54,11 @@ Definition locks_across_send : string := "-".
 
 Fixpoint gate_line (toks : list string) (acc : list string) : option string :=
   match toks with
-  | [] => Some (join " " ("held" :: rev ("released" :: acc)))
+  | [] => Some (join " | " ("held" :: rev ("released" :: acc)))
   | t :: r =>
       match bytes_of_tok t with
       | None => None
-      | Some b =>
-          gate_line r ((match parse pp_cfg (of_bytes b) with
-                        | Ok _ => "ok" | Err e => show_errclass e | Panic => "panic" | Fuel => "fuel" end) :: acc)
+      | Some b => gate_line r (show_parse_full pp_cfg (of_bytes b) :: acc)
       end
   end.
 
